@@ -1282,6 +1282,34 @@ pub fn eval(e: Sf32, env: &HashMap<String, f32>, memo: &mut HashMap<R, f32>) -> 
     r
 }
 
+/// All DAG nodes reachable from a term (through operands and the operands of conditions).
+pub fn reachable(t: Sf32) -> std::collections::HashSet<R> {
+    let mut seen: std::collections::HashSet<R> = Default::default();
+    let mut stack = vec![t.0];
+    while let Some(r) = stack.pop() {
+        let id = match r {
+            R::C(_) => continue,
+            R::N(i) => i,
+        };
+        if !seen.insert(r) {
+            continue;
+        }
+        match with(|a| a.node(id)) {
+            Node::Var(_) => {}
+            Node::Add(x, y) | Node::Sub(x, y) | Node::Mul(x, y) | Node::Div(x, y) | Node::Max(x, y) | Node::Min(x, y) => {
+                stack.push(x);
+                stack.push(y);
+            }
+            Node::Neg(x) | Node::F(_, x) => stack.push(x),
+            Node::Ite(cd, t, e) => {
+                let (p, q) = with(|a| a.conds[cd as usize]).operands();
+                stack.extend([p, q, t, e]);
+            }
+        }
+    }
+    seen
+}
+
 /// Variables (names) occurring in a set of terms / conditions.
 pub fn vars_of(terms: &[Sf32], conds: &[u32]) -> BTreeSet<String> {
     let mut seen: std::collections::HashSet<R> = Default::default();
